@@ -176,7 +176,8 @@ pub struct SshPeer {
     handle: russh::server::Handle,
     channel: russh::ChannelId,
     rx: mpsc::UnboundedReceiver<Vec<u8>>,
-    abort: tokio::task::AbortHandle,
+    /// a second handle on the TCP socket, to tear the connection down under the SSH session
+    killer: std::net::TcpStream,
     closed: bool,
 }
 
@@ -194,8 +195,9 @@ impl PeerIo for SshPeer {
     async fn close(&mut self, abrupt: bool) {
         self.closed = true;
         if abrupt {
-            // tear the TCP connection down under the SSH session
-            self.abort.abort();
+            // tear the TCP connection down under the SSH session (no SSH disconnect, no channel
+            // EOF/close): the peer just sees the connection go away
+            let _ = self.killer.shutdown(std::net::Shutdown::Both);
         } else {
             let _ = self.handle.eof(self.channel).await;
             let _ = self.handle.close(self.channel).await;
@@ -331,6 +333,18 @@ pub async fn ssh_server(
         }
         PreClose::None => {}
     }
+    let (tcp, killer) = match tcp.into_std().and_then(|s| {
+        let k = s.try_clone()?;
+        Ok((TcpStream::from_std(s)?, k))
+    }) {
+        Ok(x) => x,
+        Err(e) => {
+            return Marks {
+                error: Some(format!("dup: {e}")),
+                ..Marks::default()
+            }
+        }
+    };
     let (tx, mut rx) = mpsc::unbounded_channel();
     let handler = SshHandler {
         tx,
@@ -384,7 +398,7 @@ pub async fn ssh_server(
         handle,
         channel,
         rx: drx,
-        abort: session_task.abort_handle(),
+        killer,
         closed: false,
     };
     let marks = run_script(&mut peer, &script).await;
